@@ -61,4 +61,27 @@ def changeScaleE (deletePVC : Bool) (cur : Option Int) (tpls : Nat) (expect : In
 /-- `Replicas()`: is the StatefulSet skipped because a rolling update is in progress? -/
 def skipped (replicas updated : Int) : Bool := Gen.K8s.rollingSkip replicas updated
 
+/-- what one call of `Replicas()` sees of one StatefulSet -/
+structure StsStatus where
+  replicas : Int
+  updated : Int
+  ready : Int
+  deriving Repr, DecidableEq, Inhabited
+
+/-- one iteration of the loop of `Replicas()` for one StatefulSet at time `now` (seconds); the
+    manager's state for it is the "not ready since" stamp.  Result: the new stamp and whether a
+    shard manager is returned (the StatefulSet is coordinated in this cycle). -/
+def replicasStep (stamp : Option Int) (now : Int) (s : StsStatus) : Option Int × Bool :=
+  if Gen.K8s.rollingSkip s.replicas s.updated then (none, false) else
+  let stamp := if Gen.K8s.stampSet s.ready s.replicas stamp.isNone then some now else stamp
+  -- `*t` is only evaluated when the first conjunct holds, and then the stamp is set
+  if Gen.K8s.stillWaiting s.ready s.replicas (now - stamp.getD now) then (stamp, false) else (stamp, true)
+
+/-- a history of calls by one manager (fresh manager: no stamp); the answers, oldest first -/
+def replicasRun : Option Int → List (Int × StsStatus) → List Bool
+  | _, [] => []
+  | stamp, (now, s) :: rest =>
+    let r := replicasStep stamp now s
+    r.2 :: replicasRun r.1 rest
+
 end Kvass.K8s
